@@ -207,6 +207,11 @@ Definition ststep (h : sth) (o : stop) : sth + list Z :=
       let listing' := map (fun l => let '(id, (fh, fv, ft, fm)) := l in
                                      (id, (fstate_of fh, fstate_of fv, fstate_of ft, fstate_of fm))) listing in
       if negb (err =? 0) then inr (v_violation [sh_i h; -9])     (* reopening must not fail *)
+      else if (crash =? 1) && negb (forallb (fun l => safe_files hv ht hm (snd l)) listing') then
+        (* a crash point of the segment writers left a directory in which a segment can be loaded
+           partially (its hybrid_ file is intact while a component is not): "ignored as a whole rather
+           than loaded partially" cannot hold for it *)
+        inr (v_violation [sh_i h; -14])
       else
         inl {| sh_model := reopen_store p hv ht hm limit cthr (sh_known h) listing';
                sh_spec := sh_spec h; sh_durable := sh_durable h; sh_added := sh_added h; sh_known := sh_known h;
